@@ -126,7 +126,7 @@ def _tag(rep):
 
 
 def _days(ctx, shard, nshards):
-    days, exh = A.pick_days(ctx, shard, nshards, None if ctx.thorough else 500, 200, "c04")
+    days, exh = A.pick_days(ctx, shard, nshards, None if ctx.thorough else 1500, 600, "c04")
     if not ctx.thorough:
         # every month end region of a sample of months in the slice
         a, b = days[0], days[-1]
